@@ -10,6 +10,7 @@ package main
 
 import (
 	"fmt"
+	"regexp"
 	"go/types"
 	"math/big"
 	"sort"
@@ -133,8 +134,18 @@ func leaves(t types.Type) []Leaf {
 	return out
 }
 
+var byteRe = regexp.MustCompile(`\bbyte\b`)
+var runeRe = regexp.MustCompile(`\brune\b`)
+
+// typeName is the canonical name of a type in component names (byte/rune are aliases).
 func typeName(t types.Type) string {
 	s := types.TypeString(t, func(p *types.Package) string { return p.Name() })
+	if strings.Contains(s, "byte") {
+		s = byteRe.ReplaceAllString(s, "uint8")
+	}
+	if strings.Contains(s, "rune") {
+		s = runeRe.ReplaceAllString(s, "int32")
+	}
 	return s
 }
 
